@@ -19,6 +19,7 @@ MAX_LEN = 4000
 MAX_DEPTH = 4
 
 _snapshot = None
+EXTRA_RESET = []        # callables run with every restore (state kept outside athlib's python modules, e.g. the interpreted JavaScript modules)
 
 
 def _athlib_modules():
@@ -106,6 +107,8 @@ class Snapshot:
     def restore(self):
         """-> number of objects whose content had changed"""
         n = 0
+        for fn in EXTRA_RESET:
+            fn()
         try:
             from .shims import functools_shim
             n += functools_shim.clear_all()          # lru_cache / cache tables made through the shim: empty at the start of every path
